@@ -57,7 +57,10 @@ func (w *workload) String() string {
 	return fmt.Sprintf("%s pre=%v ops=%s objects=[%s]", w.spec.String(), w.pre, strings.Join(ops, " "), strings.Join(sz, " "))
 }
 
-const nObjects = 12
+const (
+	nObjects   = 12
+	runTimeout = 60 * time.Second
+)
 
 func genWorkload(t *rapid.T) *workload {
 	w := &workload{}
@@ -183,29 +186,6 @@ func workers() int {
 	return n
 }
 
-func runOne(w *workload, objs []*fsobj.Obj, inj []sysinject.Inject) (*sysinject.Result, *fshelper.Results, *fshelper.Spec, string, error) {
-	dir, err := os.MkdirTemp("", "c12-")
-	if err != nil {
-		return nil, nil, nil, "", err
-	}
-	s := w.spec // copy
-	specPath, err := fshelper.Prepare(&s, dir, w.pre)
-	if err != nil {
-		os.RemoveAll(dir)
-		return nil, nil, nil, "", fmt.Errorf("prepare: %w", err)
-	}
-	res, err := sysinject.Exec(sysinject.Cmd{Mode: fshelper.Mode, SpecPath: specPath, Injects: inj, WorkDir: dir, Timeout: 40 * time.Second})
-	if err != nil {
-		os.RemoveAll(dir)
-		return nil, nil, nil, "", err
-	}
-	rr, err := fshelper.ReadResults(s.ResultPath, s.NumOps())
-	if err != nil {
-		rr = &fshelper.Results{Ops: make([]fshelper.Record, s.NumOps())}
-	}
-	return res, rr, &s, dir, nil
-}
-
 // mustHave computes which objects must be readable after the crash: pre-existing objects and objects of
 // acknowledged puts/batches, unless a delete of the object was started at or after that point.
 func mustHave(w *workload, rr *fshelper.Results) map[int]string {
@@ -245,10 +225,11 @@ func TestC12CrashPoints(t *testing.T) {
 		desc := w.String()
 
 		// ---- dry run
-		dry, drr, dspec, ddir, err := runOne(w, objs, nil)
+		dr, err := fshelper.Execute(w.spec, w.pre, nil, runTimeout)
 		if err != nil {
 			ev.Inconclusive("dry run: %v", err)
 		}
+		dry, drr, dspec, ddir := dr.Trace, dr.Results, dr.Spec, dr.Dir
 		if dry.ExitCode != 0 || dry.Signal != "" || !drr.Finished {
 			os.RemoveAll(ddir)
 			t.Fatalf("workload fails without any injection: exit=%d signal=%q finished=%v stderr:\n%s\nworkload: %s", dry.ExitCode, dry.Signal, drr.Finished, dry.Stderr, desc)
@@ -419,12 +400,13 @@ func TestC12CrashPoints(t *testing.T) {
 func crashRun(w *workload, objs []*fsobj.Obj, pt point, instPos map[instance]int, firstWrite, lastLink int) (o outcome) {
 	o.pt = pt
 	inj := []sysinject.Inject{{Syscall: pt.syscall, Signal: "SIGKILL", When: fmt.Sprint(pt.when)}}
-	res, rr, spec, dir, err := runOne(w, objs, inj)
+	run, err := fshelper.Execute(w.spec, w.pre, inj, runTimeout)
 	if err != nil {
 		o.err, o.harness = err, true
 		return
 	}
-	defer os.RemoveAll(dir)
+	defer run.Cleanup()
+	res, rr, spec := run.Trace, run.Results, run.Spec
 	if res.TimedOut {
 		o.err, o.harness = fmt.Errorf("helper timed out under SIGKILL injection; stderr: %s", res.Stderr), true
 		return
